@@ -16,7 +16,7 @@ from glue.core.message import (DataUpdateMessage, DataRemoveComponentMessage,
                                ComponentReplacedMessage, DataReorderComponentMessage,
                                ExternallyDerivableComponentsChangedMessage,
                                PixelAlignedDataChangedMessage)
-from glue.core.decorators import clear_cache
+from glue.core.decorators import clear_all_caches
 from glue.core.util import split_component_view
 from glue.core.hub import Hub
 from glue.core.subset import Subset, SubsetState, SliceSubsetState
@@ -1551,8 +1551,11 @@ class Data(BaseCartesianData):
             msg = NumericalDataChangedMessage(self, components_changed=list(mapping.keys()))
             self.hub.broadcast(msg)
 
-        for subset in self.subsets:
-            clear_cache(subset.subset_state.to_mask)
+        # The cached masks of all subset states may depend on the values that
+        # just changed - not only those of the top-level states of the subsets
+        # of this dataset (e.g. states nested in composite states, or states
+        # that are not attached to a subset)
+        clear_all_caches()
 
     def update_values_from_data(self, data):
         """
@@ -1623,8 +1626,11 @@ class Data(BaseCartesianData):
             msg = NumericalDataChangedMessage(self)
             self.hub.broadcast(msg)
 
-        for subset in self.subsets:
-            clear_cache(subset.subset_state.to_mask)
+        # The cached masks of all subset states may depend on the values that
+        # just changed - not only those of the top-level states of the subsets
+        # of this dataset (e.g. states nested in composite states, or states
+        # that are not attached to a subset)
+        clear_all_caches()
 
     # The following are methods for accessing the data in various ways that
     # can be overriden by subclasses that want to improve performance.
